@@ -140,6 +140,25 @@ def check_case(case, ctx):
                 ctx.violation("C14/declared-not-relevant-but-accepted", f"{cfg} declared the scheme NOT relevant for "
                               "incomplete rankings but accepted an incomplete dataset", sub, observed="accepted",
                               expected="refusal")
+        # history: the incomplete Dataset object (whose completeness has been observed by the run above) is made complete in
+        # place by removing the elements that some ranking lacks; complete data must never be refused
+        inc = case["incomplete"]
+        common_elems = [e for e in ref.universe(inc) if all(any(e in b for b in r) for r in inc)]
+        if len(common_elems) >= 2 and all(len(r) for r in inc) and cfg in case["configs"][:3]:
+            d_m = libx.mk_dataset(inc)
+            call(alg.compute_consensus_rankings, d_m, scheme, True)
+            victims = {ck.Element(e) for e in ref.universe(inc) if e not in common_elems}
+            stm, _ = call(d_m.remove_elements, victims)
+            now = libx.raw_dataset(d_m)
+            if stm == "ok" and ref.is_complete(now):
+                ctx.count("made_complete_in_place")
+                libx.seed_library(case["libseed"])
+                st, cons = call(alg.compute_consensus_rankings, d_m, scheme, True)
+                if st == "exc":
+                    sig = "C14/complete-dataset-refused:after-in-place-completion" if isinstance(cons, libx.DOCUMENTED_REFUSALS) \
+                        else f"C14/complete-dataset-raises-{type(cons).__name__}:after-in-place-completion"
+                    ctx.violation(sig, f"{cfg} did not accept a dataset made complete in place by remove_elements: "
+                                  f"{exc_desc(cons)}", {**sub, "made_complete": now}, observed=type(cons).__name__)
         if cfg in IFF or (pred and len(ref.universe(case["incomplete"])) >= 3):
             ctx.nontrivial(sub)
             ctx.sample({**sub, "predicate": pred, "incomplete_outcome": "refused" if refused else "accepted"},
@@ -152,6 +171,9 @@ def reach(counters, tier, info):
     for cfg in CONFIGS:
         v = counters.get("predicate:" + cfg, 0)
         out.append({"name": f"predicate evaluated on {cfg}", "observed": v, "required": 200 * k, "ok": v >= 200 * k})
+    v = counters.get("made_complete_in_place", 0)
+    out.append({"name": "runs on an incomplete Dataset object made complete in place", "observed": v, "required": 150 * k,
+                "ok": v >= 150 * k})
     v = counters.get("nested_depth2_configs", 0)
     out.append({"name": "random nested configurations of depth 2", "observed": v, "required": 300 * k, "ok": v >= 300 * k})
     for cfg in sorted(IFF):
